@@ -6,6 +6,7 @@ Events : spherematch(ra1, dec1, ra2, dec2, matchlength, chunksize, maxmatch) -> 
 Oracle : brute force over all n1*n2 pairs with long-double chord separations (vlib/refs/sphere_match.py).
 """
 import math
+import warnings
 import random
 import numpy as np
 from vlib.harness import Check, np_rng
@@ -57,6 +58,25 @@ def perm_from_seed(seed, n):
     return np.array(p, dtype=int)
 
 
+# Canaries: tiny fixed inputs with known answers; the harness runs C04.canary() (all of them, in CANARY_ORDER) right after
+# setup and after every case, in the same process: a call must not leave anything behind (numpy error state, warning filters, module state)
+# that changes the answer of the next one.  They walk the warning-prone paths: all points of list 1 at one RA (0/0 in
+# chunks.rarange), a pair across RA 0/360, match circles that contain a pole.  A polar canary always precedes an equal-RA one.
+CANARIES = {
+    'equal_ra': ({'ra1': [10.0, 10.0, 10.0], 'dec1': [20.0, 20.05, 20.3], 'ra2': [10.0, 10.0], 'dec2': [20.02, 20.31],
+                  'm': 0.04}, [(2, 1), (0, 0), (1, 0)]),
+    'equal_ra_zero': ({'ra1': [0.0, 0.0], 'dec1': [-30.0, -30.01], 'ra2': [0.0], 'dec2': [-30.004], 'm': 0.008},
+                      [(0, 0), (1, 0)]),
+    'seam': ({'ra1': [359.99, 0.02, 0.3], 'dec1': [-5.0, -5.0, -4.9], 'ra2': [0.012, 359.98], 'dec2': [-5.0, -5.0],
+              'm': 0.035}, [(1, 0), (0, 1), (0, 0)]),
+    'equal_dec': ({'ra1': [40.0, 40.03, 40.5, 41.0], 'dec1': [60.0, 60.0, 60.0, 60.0], 'ra2': [40.02, 40.52, 41.5],
+                   'dec2': [60.0, 60.0, 60.0], 'm': 0.012}, [(1, 0), (0, 0), (2, 1)]),
+    'polar': ({'ra1': [0.0, 90.0, 200.0], 'dec1': [89.9, 89.95, 89.0], 'ra2': [180.0, 270.0], 'dec2': [89.92, 89.97],
+               'm': 0.2}, [(1, 1), (1, 0), (0, 1), (0, 0)]),
+}
+CANARY_ORDER = ('polar', 'equal_ra', 'seam', 'equal_dec', 'equal_ra_zero', 'polar', 'equal_ra')
+
+
 class C04(Check):
     ID = 'C04'
     CASE_CPU_S = 30.0
@@ -69,7 +89,11 @@ class C04(Check):
             'edges, Dec slice edges, the seam cell, the padded outer bounds and in the polar slice, partners just across '
             'the edge at m(1 +- 10^-u).  Every case is re-run with both lists permuted and with another admissible '
             'chunk size.  Non-trivial: >= 1 true pair, >= 1 non-pair within 2m and >= 1 true pair whose two points lie in '
-            'different cells; distinct by hash of the materialised case.')
+            'different cells; distinct by hash of the materialised case.  Class degenerate: all points of list 1 and/or list 2 '
+            'at exactly one RA (meridian strips, two points at one RA, RA 0, strips into the polar cap) or at one Dec.  '
+            'After every case the harness runs the canary sequence in the same process - fixed polar, '
+            'equal-RA, seam inputs with known answers, a polar one always before an equal-RA one - so that what a call '
+            'leaves behind (e.g. the numpy error state) is seen by the next call.')
     ASSUMPTIONS = ['separations from a long-double chord formula; pairs within max(1e-9 relative, 1e-11 deg) of the match '
                    'length are undecided (gcirc carries <= 5e-14 deg absolute error from the RA subtraction in radians)',
                    'reported distance must agree with the reference within max(1e-9 relative, 1e-11 deg)',
@@ -77,7 +101,8 @@ class C04(Check):
                    'maxmatch > 0 is judged on validity + cap + greedy-maximality + order, not on a particular tie-break']
     REQUIRED_COUNTERS = ('true_pairs', 'band_pairs_undecided', 'cross_cell_true_pairs', 'near_threshold_pairs', 'wrap_low_arm', 'wrap_high_arm',
                          'multi_slice_arm', 'outside_bounds_arm', 'polar_single_cell_slice', 'maxmatch_pos_calls',
-                         'maxmatch_blocked_pairs', 'edge_close_points', 'perm_variants', 'chunksize_variants')
+                         'maxmatch_blocked_pairs', 'edge_close_points', 'perm_variants', 'chunksize_variants',
+                         'canary_sequences', 'canary_inputs_judged', 'equal_ra_list1_cases', 'equal_dec_list1_cases')
 
     # ------------------------------------------------------------------ wiring
     def setup(self):
@@ -94,6 +119,16 @@ class C04(Check):
             return orig(inst, ra, dec, marginSize)
         SG.chunks.assign = assign
         self.rec.wrap(SG, 'spherematch')
+        # known answers of the canaries, verified once against the independent reference (harness error if they disagree)
+        self._canary = {}
+        for name, (inp, pairs) in CANARIES.items():
+            a = [np.array(inp[k], dtype='d') for k in ('ra1', 'dec1', 'ra2', 'dec2')]
+            S = R.checked_sep_matrix(*a)
+            sure, maybe = R.classify(S, inp['m'])
+            truth = sorted(zip(*[x.tolist() for x in np.nonzero(sure)]))
+            if truth != sorted(pairs) or int((maybe & ~sure).sum()):
+                raise RuntimeError('canary %s: stored answer disagrees with the reference' % name)
+            self._canary[name] = (a, inp, S, S.astype('d'), sure, maybe)
 
     def teardown(self):
         self.rec.unwrap_all()
@@ -114,6 +149,8 @@ class C04(Check):
             'guided_pad': 400 if q else 8000,
             'guided_wrap': 200 if q else 4000,
             'polar': 240 if q else 5000,
+            'canary_inputs': len(CANARIES),
+            'degenerate': 300 if q else 6000,
         }
 
     # ------------------------------------------------------------------ generator helpers
@@ -165,6 +202,73 @@ class C04(Check):
         if 'variants' not in case:
             self._variants(rng, case)
         return case
+
+    def gen_canary_inputs(self, rng, nr, i):
+        """the canary inputs as ordinary cases, so that their answers are also judged by the oracle on the tree under test"""
+        name = sorted(CANARIES)[i % len(CANARIES)]
+        inp = CANARIES[name][0]
+        return {'m': inp['m'], 'cs': None, 'k': 0, 'ra1': list(inp['ra1']), 'dec1': list(inp['dec1']),
+                'ra2': list(inp['ra2']), 'dec2': list(inp['dec2']), 'canary': name}
+
+    def gen_degenerate(self, rng, nr, i):
+        """all points of list 1 and/or list 2 at exactly one RA (meridian strip, two points at one RA, RA 0 and the
+        largest double below 360, strips running into the polar cap), or at exactly one Dec"""
+        kind = rng.choice(['meridian1', 'meridian1', 'meridian_both', 'meridian2', 'two_at_one_ra', 'cap_strip',
+                           'parallel1', 'parallel_both'])
+        m = log_uniform(rng, 1e-3, 3.0)
+        ra0 = rng.choice([0.0, 0.0, RA_TOP, 10.0, 180.0, rng.uniform(0, 360), rng.uniform(0, 360)])
+        dec0 = clipdec(rng.choice(DECS) + rng.uniform(-0.4, 0.4))
+        n1 = 2 if kind == 'two_at_one_ra' else rng.randint(2, 40)
+        n2 = rng.randint(1, 40)
+
+        def strip(n, start, sgn):
+            d, out_ = start, []
+            for _ in range(n):
+                out_.append(clipdec(d))
+                d += sgn * m * rng.choice([rng.uniform(0.2, 0.95), rng.uniform(1.05, 2.5), 1.0 - 10.0 ** -rng.randint(2, 6)])
+                if abs(d) >= DECLIM:
+                    d = math.copysign(DECLIM, d)
+            return out_
+
+        def row(n, ra_start, dec):
+            ra, a = [], ra_start
+            for _ in range(n):
+                ra.append(R.wrap360(a))
+                w = R.ew_width(m * rng.choice([rng.uniform(0.2, 0.95), rng.uniform(1.05, 2.5)]), dec)
+                if w is None or w > 20.0:
+                    w = 20.0                      # very close to a pole: still one Dec, RA steps of 20 deg
+                a += w
+            return ra
+        sgn = 1.0 if dec0 < 0 else -1.0
+        if kind == 'cap_strip':
+            pole = rng.choice([1.0, -1.0])
+            dec1 = strip(n1, pole * (90.0 - 10.0 ** rng.uniform(-9, -1)), -pole)
+            ra1 = [ra0] * n1
+        elif kind in ('parallel1', 'parallel_both'):
+            ra1 = row(n1, ra0, dec0)
+            n1 = len(ra1)
+            dec1 = [dec0] * n1
+        elif kind == 'meridian2':
+            ra1, dec1 = cluster(nr, n1, ra0, dec0, m * rng.uniform(0.5, 4.0))
+        else:
+            dec1 = strip(n1, dec0, sgn)
+            ra1 = [ra0] * n1
+        if kind == 'meridian_both':
+            dec2 = [clipdec(dec1[rng.randrange(n1)] + m * rng.uniform(-1.6, 1.6)) for _ in range(n2)]
+            ra2 = [ra0] * n2
+        elif kind == 'meridian2':
+            dec2 = strip(n2, clipdec(dec0 - sgn * m * 3.0), sgn)
+            ra2 = [ra0] * n2
+        elif kind == 'parallel_both':
+            ra2 = [R.wrap360(ra1[rng.randrange(n1)] + (R.ew_width(m, dec0) or 1.0) * rng.uniform(-1.6, 1.6)) for _ in range(n2)]
+            dec2 = [dec0] * n2
+        else:
+            ra2, dec2 = self._partners(rng, ra1, dec1, m, n2, 0.0, 2.0)
+            if not ra2:
+                ra2, dec2 = [ra1[0]], [dec1[0]]
+        cs = None if rng.random() < 0.5 else m * rng.choice(CS_FACT)
+        return {'m': m, 'cs': cs, 'k': self._pick_k(rng, n1, len(ra2)), 'ra1': ra1, 'dec1': dec1, 'ra2': ra2, 'dec2': dec2,
+                'kind': kind}
 
     def gen_clusters(self, rng, nr, i):
         m = log_uniform(rng, 1.0 / 3600.0, 30.0)
@@ -624,6 +728,24 @@ class C04(Check):
                 'cs_floor': 0.2}
 
     # ------------------------------------------------------------------ run
+    def canary(self):
+        """Fixed, ordinary call sequence used by the harness after setup and after every case (clause `history`): a polar
+        match (circles containing the pole) comes first, then lists whose points share one RA, a pair across RA 0/360, a
+        list at one Dec, a strip at RA 0.  No np.errstate() here - it would put back what the calls leave behind."""
+        res = []
+        for name in CANARY_ORDER:
+            a = self._canary[name][0]
+            m = CANARIES[name][0]['m']
+            try:
+                with warnings.catch_warnings():
+                    warnings.simplefilter('ignore')
+                    m1, m2, d = self.SG.spherematch(a[0].copy(), a[1].copy(), a[2].copy(), a[3].copy(), m, maxmatch=0)
+                res.append(('ok', name, tuple(np.asarray(m1).astype(int).tolist()), tuple(np.asarray(m2).astype(int).tolist()),
+                            np.asarray(d, dtype='f8').round(12).tobytes()))
+            except Exception as e:
+                res.append(('raised', type(e).__name__, '%s: %s' % (name, str(e)[:80])))
+        return res
+
     def run(self, case, out):
         ra1 = np.array(case['ra1'], dtype='d')
         dec1 = np.array(case['dec1'], dtype='d')
@@ -631,7 +753,8 @@ class C04(Check):
         dec2 = np.array(case['dec2'], dtype='d')
         m = float(case['m'])
         n1, n2 = ra1.size, ra2.size
-        S = R.checked_sep_matrix(ra1, dec1, ra2, dec2)       # chord formula, cross-checked against Vincenty
+        with np.errstate(all='ignore'):      # an error state left behind by an earlier call must not reach the reference
+            S = R.checked_sep_matrix(ra1, dec1, ra2, dec2)   # chord formula, cross-checked against Vincenty
         out.count('reference_selfchecks')
         sure, maybe = R.classify(S, m)
         nband = int((maybe & ~sure).sum())
@@ -643,6 +766,14 @@ class C04(Check):
         out.count('true_pairs', nsure)
         near = int(((np.abs(Sf - m) < 1e-3 * m) & ~(maybe & ~sure)).sum())
         out.count('near_threshold_pairs', near)
+        if case.get('cls') == 'canary_inputs':
+            out.count('canary_inputs_judged')
+        if n1 >= 2 and np.all(ra1 == ra1[0]):
+            out.count('equal_ra_list1_cases')
+        if n1 >= 2 and np.all(dec1 == dec1[0]):
+            out.count('equal_dec_list1_cases')
+        if n2 >= 2 and np.all(ra2 == ra2[0]):
+            out.count('equal_ra_list2_cases')
         nonpair_near = int((~maybe & (Sf < 2.0 * m)).sum())
         runs = [{'p1': None, 'p2': None, 'cs': case['cs'], 'k': case['k']}] + list(case.get('variants', []))
         cross = 0
@@ -660,7 +791,8 @@ class C04(Check):
                     out.count('perm_variants')
                 if v['cs'] != case['cs']:
                     out.count('chunksize_variants')
-            self._judge(out, res, p1, p2, n1, n2, S, Sf, sure, maybe, m, k, tag, case)
+            with np.errstate(all='ignore'):      # a leaked numpy error state must not reach the oracle's own arithmetic
+                self._judge(out, res, p1, p2, n1, n2, S, Sf, sure, maybe, m, k, tag, case)
         out.nontrivial = nsure >= 1 and nonpair_near >= 1 and cross >= 1
         out.info.update({'n1': n1, 'n2': n2, 'true_pairs': nsure, 'band_pairs': nband, 'cross_cell_true_pairs': cross,
                          'nonpairs_within_2m': nonpair_near})
